@@ -1906,12 +1906,13 @@ def _solve_triangular(m, func, args, kwargs):
     upper = kwargs.get('upper', args[2] if len(args) > 2 else False)
     left = kwargs.get('left', args[3] if len(args) > 3 else True)
     unit = kwargs.get('unitriangular', args[4] if len(args) > 4 else False)
-    if not left:
-        raise Unsupported('solve_triangular left=False')
-    n, k = B.shape[-2], B.shape[-1]
+    out = func(*args, **kwargs)
+    n = A.shape[-1]
     if n > 4:
         raise Unsupported('solve_triangular n>4')
-    out = func(*args, **kwargs)
+    # left=False:  X A = B  <=>  A^T X^T = B^T  (the transposed triangle)
+    rows_b, cols_b = B.shape[-2], B.shape[-1]
+    k = cols_b if left else rows_b
     shape = torch.broadcast_shapes(A.shape[:-2], B.shape[:-2])
     with _disable_current_modes():
         Ae, Be = A.expand(shape + A.shape[-2:]), B.expand(shape + B.shape[-2:])
@@ -1923,8 +1924,16 @@ def _solve_triangular(m, func, args, kwargs):
         Am = fa[b * n * n:(b + 1) * n * n]
         keep = (lambda i, j: j >= i) if upper else (lambda i, j: j <= i)
         Am = [(z3.RealVal(1) if (unit and i == j) else Am[i * n + j]) if keep(i, j) else z3.RealVal(0) for i in range(n) for j in range(n)]
-        Bm = fb[b * n * k:(b + 1) * n * k]
-        res += (_solve_upper if upper else _solve_lower)(Am, Bm, n, k)
+        Bm = fb[b * rows_b * cols_b:(b + 1) * rows_b * cols_b]
+        up = upper
+        if not left:
+            Am = [Am[j * n + i] for i in range(n) for j in range(n)]
+            Bm = [Bm[j * cols_b + i] for i in range(cols_b) for j in range(rows_b)]      # B^T: n x k
+            up = not upper
+        X = (_solve_upper if up else _solve_lower)(Am, Bm, n, k)
+        if not left:
+            X = [X[j * k + i] for i in range(k) for j in range(n)]                      # back to k x n
+        res += X
     m.write(out, res)
     return out
 
